@@ -164,9 +164,22 @@ func genC04(c *Ctx) {
 			}
 			c.Check("c04.roundtrip", S(name), fields)
 			if i < 2 {
-				for k, fv := range cmdFieldValues(smbNew(name)) {
+				// the intended assignment must itself be accepted: every string field gets format 0x04 and a
+				// short NUL-free buffer
+				good := L(fields.L...)
+				fvs0 := cmdFieldValues(smbNew(name))
+				for k, fv := range fvs0 {
+					str := L(U(4), U(3), B([]byte{'a', 'b', byte('c' + k)}))
+					switch fv.Type().Name() {
+					case "SMB_STRING":
+						good.L[k] = str
+					case "OEM_STRING":
+						good.L[k] = L(str)
+					}
+				}
+				for k, fv := range fvs0 {
 					if tn := fv.Type().Name(); tn == "SMB_STRING" || tn == "OEM_STRING" {
-						c.Check("c04.marshal_after_refusal", S(name), fields, I(int64(k)))
+						c.Check("c04.marshal_after_refusal", S(name), good, I(int64(k)))
 					}
 				}
 			}
